@@ -46,15 +46,15 @@ def py_part(ctx):
         if r.startswith('ok') and len(r) > 3:
             ctx.nontriv(('py', s))
         if r == 'timeout':
-            ctx.count('py:timeout')
-            continue          # slow cases are judged by the timing families (D4)
+            ctx.fail('py-time', {'s': s[:200], 'parser': 'pybrace'}, 'pybrace.FormatString did not finish within 5 s')
+            continue
         if m != r:
             ctx.disagree('pybrace', {'s': s[:200]}, m[:300], r[:300])
     # 2. the property on the implementation, judged by the live interpreter
     verdicts = common.pmap('harness.fmt_pybrace', 'oracle', cs, per_case_timeout=5)
     ctx.evaluations += len(verdicts)
     for s, v in zip(cs, verdicts):
-        if v is not None and v != 'timeout':
+        if v is not None and v != 'timeout':   # a timeout is already reported by the first stream
             ctx.fail(v[0], {'s': s[:200], 'parser': 'pybrace'}, v[1], finding=v[2])
     # 3. spec vs the live interpreter: the markup iterator, then formatting
     res = common.compare_parallel('harness.fmt_pybrace', 'live_markup', [('cpymarkup ' + common.enc_str(s), s) for s in cs], per_case_timeout=20)
@@ -79,12 +79,10 @@ def py_part(ctx):
     ctx.samples += [{'pybrace': s} for s in cs[::max(1, len(cs) // 5)]][:5]
 
 
-# pumped families derived from _field_re; the first two are the unterminated format spec of D4 (small sizes: exponential today)
-PY_FAMILIES_SMALL = [
+# pumped families derived from _field_re (the first two are the unterminated format spec of D4, fixed by 89b000c)
+PY_FAMILIES = [
     ('py:{:a*n', lambda n: '{:' + 'a' * n),
     ('py:{0:a*n{', lambda n: '{0:' + 'a' * n + '{'),
-]
-PY_FAMILIES = [
     ('py:{*n', lambda n: '{' * n),
     ('py:{a[x*n', lambda n: '{a[' + 'x' * n),
     ('py:{0!s*n', lambda n: '{0!' + 's' * n),
@@ -141,12 +139,10 @@ def check(ctx):
         if not ok:
             ctx.fail('perl-time', {'family': name, 'parser': 'perlbrace'}, 'perlbrace.FormatString time is not linear on this family: ' + desc)
     psizes = [1 << k for k in range(8, 15 if ctx.quick() else 17)]
-    small = [14, 16, 18, 20, 22, 24, 26]
-    for name, ok, desc, f in timing_part(ctx, 'pybrace', PY_FAMILIES, psizes) + timing_part(ctx, 'pybrace', PY_FAMILIES_SMALL, small):
+    for name, ok, desc, f in timing_part(ctx, 'pybrace', PY_FAMILIES, psizes):
         if not ok:
             ctx.fail('py-time', {'family': name, 'parser': 'pybrace', 'example': f(24)[:60]},
-                     'pybrace.FormatString time is not linear on this family: ' + desc,
-                     finding='D4' if name in ('py:{:a*n', 'py:{0:a*n{') else None)
+                     'pybrace.FormatString time is not linear on this family: ' + desc)
     return common.finish(
         ctx, 'proof', build, aud, TRUSTED, ASSUME,
         checker_cmd='tools/build.sh (coq_makefile + make: coqc on Props/C13.v) then coqc Audit_C13.v (Print Assumptions)',
